@@ -438,7 +438,7 @@ def r5_selection(ctx):
     if len(rets) == 1:
         s = src(rets[0][1])
         tn = {f'cls.nodes({cat}) | {{{cat}}}', f'{{{cat}}} | cls.nodes({cat})'}
-        vv = 'cls.valid(include=include, exclude=exclude)'
+        vv = 'cls.valid(include, exclude)'
         forms = set()
         for t in tn:
             forms |= {f'len({t} & {vv}) > 0', f'len(({t}) & {vv}) > 0', f'len({vv} & ({t})) > 0',
